@@ -321,7 +321,14 @@ fn hostile_reply_scenario(r: &mut Report, seed: u64, call: Call, sync_flavour: b
             st.log.push(format!("{name} <- {}", String::from_utf8_lossy(&bytes).chars().take(120).collect::<String>()));
         }
         drop(st);
-        w.raw_send(sock, &bytes, d.from);
+        // some replies arrive late: just below / above the request timeout, or very late
+        let extra = match rrng.usize(8) {
+            0 => 400 * MS + rrng.below(200) * MS,
+            1 => 1200 * MS + rrng.below(400) * MS,
+            2 => 500 * MS + rrng.below(100) * MS,
+            _ => 0,
+        };
+        w.raw_send_delayed(sock, &bytes, d.from, extra);
         true
     })));
     let boots: Vec<SocketAddrV4> = ends.iter().map(|e| e.1).collect();
